@@ -65,7 +65,7 @@ lemma(
     lemma_cancel_on_event,
     prop='C16',
     params=dict(emitter=EMITTER, fut=OneOf(FUT, TASKFUT), event_first=Bool, twice=Bool),
-    modifies=['emitter.listeners', 'fut.st', 'fut.cbs'],
+    modifies=['emitter.listeners', 'fut.st', 'fut.cbs', 'fut.exc'],
     inline=['bumble.utils:cancel_on_event', 'cancel_on_event', 'RecEmitter.*', 'contracts.c16_env:run_done_callbacks', 'run_done_callbacks'] + FUT_INLINE,
     stubs=ENSURE_STUBS,
     note='a second remove_listener would raise KeyError (pyee): "exactly once" is the absence of that exception plus count == 0',
@@ -282,23 +282,38 @@ model(
     methods={'emit': Callback('emit'), 'flush_output': Callback('flush_output')},
 )
 LE_INLINE = ['LeCreditBasedChannel._change_state', 'LeCreditBasedChannel.send_control_frame', 'LeCreditBasedChannel.abort'] + FUT_INLINE
-for _op in ('connect', 'disconnect'):
-    contract(
-        f'bumble.l2cap:LeCreditBasedChannel.{_op}',
-        prop='C16',
-        profile='skeleton',
-        params=dict(self=Inst('bumble.l2cap:LeCreditBasedChannel#c16w')),
-        ghost=W_GHOST,
-        requires=lambda ghost: [not ghost.cut],
-        ensures=lambda self, ghost: [implies(ghost.cut, self.connection_result is None and self.disconnection_result is None)],
-        ensures_names=['nothing-left-pending-after-a-cut'],
-        raises={_core.InvalidStateError: None, asyncio.CancelledError: lambda self, ghost: [implies(ghost.cut, self.connection_result is None and self.disconnection_result is None)]},
-        modifies=['*'],
-        inline=LE_INLINE,
-        stubs=WAIT_STUBS,
-        await_hook=make_cut_hook(lambda path, env: call_method(path, env['self'], 'abort')),
-        note='bare await: released because ChannelManager.on_disconnection aborts every channel of the connection, CONNECTING ones included',
-    )
+def le_nothing_pending(self, ghost):
+    return implies(ghost.cut, self.connection_result is None and self.disconnection_result is None)
+
+
+LE_WAITER = dict(
+    prop='C16',
+    profile='skeleton',
+    params=dict(self=Inst('bumble.l2cap:LeCreditBasedChannel#c16w')),
+    ghost=W_GHOST,
+    requires=lambda ghost: [not ghost.cut],
+    ensures=lambda self, ghost: [le_nothing_pending(self, ghost)],
+    ensures_names=['nothing-left-pending-after-a-cut'],
+    modifies=['*'],
+    inline=LE_INLINE,
+    stubs=WAIT_STUBS,
+    await_hook=make_cut_hook(lambda path, env: call_method(path, env['self'], 'abort')),
+    note='bare await: released because ChannelManager.on_disconnection aborts every channel of the connection, CONNECTING ones included',
+)
+contract(
+    'bumble.l2cap:LeCreditBasedChannel.connect',
+    raises={_core.InvalidStateError: None, asyncio.CancelledError: lambda self, ghost: [
+        le_nothing_pending(self, ghost),
+        # the connection request this channel registered in the manager (le_coc_requests[identifier]) is forgotten with it
+        implies(ghost.cut, len(self.manager.le_coc_requests) == 0),
+    ]},
+    **LE_WAITER,
+)
+contract(
+    'bumble.l2cap:LeCreditBasedChannel.disconnect',
+    raises={_core.InvalidStateError: None, asyncio.CancelledError: lambda self, ghost: [le_nothing_pending(self, ghost)]},
+    **LE_WAITER,
+)
 
 
 # -- GATT client request ----------------------------------------------------------------------------
